@@ -417,8 +417,16 @@ def judge(ctx, case, res):
       ctx.count('tasks_delivered', len(got))
       missing = [w for w in set(want) if w not in set(got)]
       phantom = [g for g in set(got) if g not in set(want)]
+      # Known finding: an init_generator handler that runs after its deadline
+      # (fault kind 'slow') replaces the generator of the shard the worker was
+      # given meanwhile: that shard loses its remaining batches and the old shard
+      # (re-run elsewhere) is delivered / aggregated twice.
+      zombie_init = any(h[1] == 'init_generator' and h[3] == 'slow' for h in res['hits'])
+      K_ZINIT = 'zombie-init-generator-replaces-running-generator'
       if missing or phantom:
         mech = f'sharded:batches:{sig}'
+        if zombie_init:
+          mech = K_ZINIT
         # Known finding: a next-batch handler that runs after its deadline
         # (fault kind 'slow') can dequeue from the generator that the retried
         # shard re-initialised on the same worker; that batch is never delivered.
@@ -445,7 +453,7 @@ def judge(ctx, case, res):
         ctx.violation('aggregate_differs_from_fault_free', case,
                       {'got': repr(finals[0].agg_result), 'want': repr(res['ref_agg']),
                        'hits': res['hits']},
-                      mechanism=f'sharded:aggregate-differs:{sig}')
+                      mechanism=K_ZINIT if zombie_init else f'sharded:aggregate-differs:{sig}')
   if res['acquired'] or res['locked']:
     ctx.violation('workers_not_released', case,
                   {'acquired_by_pool': res['acquired'], 'locked': res['locked'],
